@@ -4,7 +4,7 @@
    file of its own so that coq/C07, which imports C06.Properties read-only, is not rebuilt, and so that the two files'
    Print Assumptions runs proceed in parallel. *)
 From Coq Require Import ZArith.
-From C06 Require Import Model ModelNative ProofsBase ProofsSigned ProofsNative ProofsNative2 ProofsNative3 ProofsNativeEx ModelCount ProofsCount ProofsDomain ModelAudit ProofsAudit ProofsAudit2 ProofsExamples.
+From C06 Require Import Model ModelNative ProofsBase ProofsSigned ProofsNative ProofsNative2 ProofsNative3 ProofsNativeEx ModelCount ProofsCount ProofsDomain ModelAudit ProofsAudit ProofsAudit2 ProofsExamples ModelCast ProofsCast.
 Local Open Scope Z_scope.
 
 Theorem C06_compare_native_exact : Cmp_native_exact. Proof. exact cmp_native_exact. Qed.
@@ -62,3 +62,5 @@ Theorem C06_signed_inverse_modulo_documented_exact : Sinv_mod_doc_exact. Proof. 
 Print Assumptions C06_signed_inverse_modulo_documented_exact.
 Theorem C06_div_3_2_trace_exact : Div32_trace_exact. Proof. exact div32_trace_exact. Qed.
 Print Assumptions C06_div_3_2_trace_exact.
+Theorem C06_signed_cast_floating_exact : Scast_floating_exact. Proof. exact scast_floating_exact. Qed.
+Print Assumptions C06_signed_cast_floating_exact.
